@@ -34,40 +34,6 @@ func verifIsRendering(s string, v uint64, d int, tag string) {
 	verifAssert(sum == v, tag+"/value")
 }
 
-// verifEnc32 is an independent RFC 4648 base32 encoder (upper case, no padding):
-// 5-bit groups mapped to the alphabet by arithmetic, no table shared with the code.
-func verifEnc32(b []byte) string {
-	nbits := len(b) * 8
-	nch := (nbits + 4) / 5
-	out := make([]byte, nch)
-	for i := 0; i < nch; i++ {
-		var v uint8
-		for k := 0; k < 5; k++ {
-			bit := i*5 + k
-			v <<= 1
-			if bit < nbits {
-				v |= (b[bit/8] >> (7 - uint(bit%8))) & 1
-			}
-		}
-		out[i] = verifIteU8(v < 26, 'A'+v, '2'+(v-26))
-	}
-	return string(out)
-}
-
-// Contract of deriveRFC4226 as established by the harnesses "derive" and "refuse":
-// a deterministic function CODE(key, counter, digits, alg) of exactly these
-// arguments for digits 1..10 and the three hashes, an error otherwise.
-var verifSeenKeys [][]byte
-
-func verifStub_derive(secret []byte, counter uint64, digits int, algo Algorithm) (string, error) {
-	verifSeenKeys = append(verifSeenKeys, append([]byte{}, secret...))
-	if digits < 1 || digits > 10 || algo > 2 {
-		return "", ErrUnsupportedAlgorithm
-	}
-	b := verifUF("CODE", 10, secret, counter, uint64(digits), uint64(algo))
-	return string(b[:digits]), nil
-}
-
 //verif:harness prop=C01 name=derive
 //verif:cases quick digits=1,6,8,9,10 alg=0..2 keylen=20
 //verif:cases thorough digits=1..10 alg=0..2 keylen=0,1,20,65
